@@ -15,8 +15,8 @@ META = {
             "real logins, real authorise / permit / token exchange) and every observation is judged by the TLA+ property.",
     "note": "exhaustive within the stated class product (quick: prompt/previous-consent varied only on code-capable URI classes); "
             "URI classes are concretised by the harness (near-miss path/query/port/scheme/fragment/userinfo/host mutations, loopback, "
-            "app URIs); trusted: TLC, the url crate's parse of the request URI (host/scheme facts), the loopback host list shared by "
-            "generator and spec, serde deserialisation of the request as the HTTP layer does it",
+            "app URIs); trusted: TLC, the url crate's parse of the request URI (host/scheme facts; real loopback and "
+            "loopback look-alikes are told apart in TLA+ from the logged host), serde deserialisation of the request as the HTTP layer does it",
     "design_ref": "DESIGN.md section 6, C38",
     "technique": "TLA+ operator spec (KOAuth2.Authorise) model-checked by TLC over the class product; TLC-chosen covering set and "
                  "seeded random cases replayed on the real IdmServer and validated by a TLC trace spec",
@@ -114,7 +114,7 @@ def run(tier, replay):
     }
     R.assumptions = [
         "request URI facts (normalised string, host, scheme) come from the url crate, the same parser kanidm uses",
-        "loopback hosts are drawn from {localhost, 127.0.0.1, 127.8.8.8, [::1]}; near-miss hosts are not loopback",
+        "real loopback is decided in TLA+ from the logged host (url-crate normalised): exactly localhost, an IPv4 literal in 127.0.0.0/8, or [::1]",
         "the scopes carried by a code are observed by exchanging it with the right client credentials / verifier / redirect URI "
         "inside a write transaction that is dropped (no session is persisted)",
         "client configuration does not change between the authorisation request and the consent permit",
